@@ -111,7 +111,10 @@ def build_light(r):
         kw["active"] = r["active"]
     if r.get("direction") is not None:
         kw["direction"] = TrafficLightDirection[r["direction"]]
-    return TrafficLight(r["id"], arr(r["position"]), **kw)
+    light = TrafficLight(r["id"], arr(r["position"]), **kw)
+    if r.get("late_active") is not None:
+        light.active = r["late_active"]
+    return light
 
 
 def build_incoming(r):
@@ -414,7 +417,11 @@ def add_signs_lights(draw, net, ids, profile=None, country="DEU"):
         refs = draw(st.lists(st.sampled_from(lids), min_size=1, max_size=3, unique=True))
         cyc = draw(st.lists(st.tuples(st.sampled_from(profile.get("light_colours", LIGHT_COLOURS)),
                                       st.integers(1, 20)).map(list), min_size=1, max_size=5))
-        net["lights"].append({"id": tid, "position": draw(point(300)), "cycle": cyc,
+        late_active = None
+        if profile.get("empty_cycles") and draw(st.integers(0, 3)) == 0:
+            # a light whose cycle has no elements yet; its active flag is then given through the public setter
+            cyc, late_active = [], draw(st.booleans())
+        net["lights"].append({"id": tid, "position": draw(point(300)), "cycle": cyc, "late_active": late_active,
                               "offset": draw(st.one_of(st.none(), st.integers(0, 30))),
                               "active": draw(st.sampled_from([None, True, False])),
                               "direction": draw(st.one_of(st.none(), st.sampled_from(profile.get("light_directions", LIGHT_DIRECTIONS))))})
